@@ -195,7 +195,7 @@ pub fn c02(a: &Args) -> Ctx {
                     if reopens % 4 == 1 {
                         // all handles dropped; verify in a freshly spawned process with yet other parameters
                         s.close();
-                        let other = Cfg::random(rng, false);
+                        let other = Cfg::random_reopen(rng);
                         match spawn_verify(a, &dir, pname, K::NAME, &other, &s.model, &h.keys) {
                             Ok(()) => ctx.count("reopen.new_process", 1),
                             Err(m) if m.starts_with("HARNESS") => return Some(Stop::Harness(m)),
@@ -231,7 +231,7 @@ pub fn c02(a: &Args) -> Ctx {
             }
             // final drop + new process
             s.close();
-            let other = Cfg::random(rng, false);
+            let other = Cfg::random_reopen(rng);
             match spawn_verify(a, &dir, pname, K::NAME, &other, &s.model, &h.keys) {
                 Ok(()) => ctx.count("reopen.new_process", 1),
                 Err(m) if m.starts_with("HARNESS") => return Some(Stop::Harness(m)),
@@ -635,12 +635,29 @@ fn c06_small_history(rng: &mut Rng, n_ops: usize, ed: &Edges, origin: &str) -> H
     let mut p = Profile::base(nkeys, n_ops);
     p.max_key = 64;
     let mut gen = Gen::new(rng.next(), ed);
-    let keys = gen.keys::<DbBytes>(&p);
+    let mut keys = gen.keys::<DbBytes>(&p);
+    // one history in three has long keys whose records leave one byte of slack in their slot on the shared first-fit
+    // list (1143 + 8 = 1151 in 1152, 1271 + 8 = 1279 in 1280, 1399 + 8 in 1408; one byte longer for a chain tail): one byte more in an offset field moves them
+    let long_keys = rng.chance(1, 3);
+    if long_keys {
+        keys.truncate(2);
+        for (j, l) in [1143usize, 1144, 1271, 1143, 1399, 1272].into_iter().enumerate() {
+            let mut k = crate::util::gen_bytes(l, 900 + j as u32, 1);
+            k[0] = b'A' + j as u8;
+            keys.push(k);
+        }
+    }
     // one history in three works with slots of more than 128 KiB next to small "large" ones (a free slot that is far
     // bigger than the request is still the slot to take)
     let big: &[u32] = if rng.chance(1, 3) { &[1100u32, 2000, 140_000, 300_000, 5000, 1148, 135_000, 1020] } else { &[1100u32, 2000, 5000, 20000, 70000, 1015, 1020, 3000, 1148] };
     let mut ops = Vec::new();
     let style = rng.below(3);
+    if long_keys {
+        // all of them first, with small values at low offsets: the later overwrites move the values far away
+        for k in 0..keys.len() {
+            ops.push(Op::Put(k, ValSpec { len: 10 + k as u32, seed: k as u32, kind: 0 }));
+        }
+    }
     for _ in 0..n_ops {
         let k = rng.below(keys.len() as u64) as usize;
         let r = rng.below(100);
@@ -876,6 +893,51 @@ pub fn c07(a: &Args) -> Ctx {
     let n_ops = a.get_u64("ops", 6000) as usize;
     let n_cfg = a.get_u64("configs", 8) as usize;
     let mon = Mon { get_after_put: true, final_sweep: true, full_compare_at_reopen: true, ..Default::default() };
+    // a thinly populated map traversed to the end under table sizes that are not powers of two, with every kind of buffer
+    // for the table file (what a traversal reads of an almost empty table depends on both)
+    if a.shard % 4 == 0 {
+        ctx.own.push("C04");
+        let keys: Vec<Vec<u8>> = (0..6u8).map(|i| vec![b't', i]).collect();
+        let mut ops = Vec::new();
+        for k in 0..5 {
+            ops.push(Op::Put(k, ValSpec { len: 10 + k as u32, seed: k as u32, kind: 0 }));
+        }
+        for f in [0usize, 2, 4] {
+            ops.push(Op::Iter(f, usize::MAX));
+        }
+        ops.push(Op::Del(1));
+        ops.push(Op::Put(5, ValSpec { len: 3, seed: 9, kind: 0 }));
+        ops.push(Op::Iter(1, usize::MAX));
+        ops.push(Op::Reopen(Cfg::random_reopen(&mut rng)));
+        ops.push(Op::Iter(3, usize::MAX));
+        ops.push(Op::Len);
+        let sizes = [16_385u64, 20_000, 33_000, 50_000, 65_000, 65_519, 3, 100, 5_000];
+        let x = sizes[(a.shard / 4) % sizes.len()];
+        for (j, hb) in [Buf::Auto, Buf::Size(262_144), Buf::PerMille(1000), Buf::Size(0)].into_iter().enumerate() {
+            let cfg = Cfg { buckets: Buckets::Size(x), key: Buf::PerMille(1000), val: Buf::Auto, htx: hb };
+            let h = History { kt: "bytes".into(), cfg, keys: keys.clone(), ops: ops.clone(), origin: format!("c07 thin map traversed under BucketsSize({x}), table buffer {}", hb.text()) };
+            let dir = a.scratch.join(format!("h_thin{j}"));
+            let res = run_history_kt("bytes", &dir, &h, &mon, &mut ctx);
+            ctx.evaluations += 1;
+            ctx.count("thin_map_traversals", 1);
+            let _ = std::fs::remove_dir_all(&dir);
+            if let Some(stop) = res.stop {
+                let stop = match stop {
+                    Stop::Violation(mut f) => {
+                        f.msg = format!("[config {}] {}", cfg.text(), f.msg);
+                        Stop::Violation(f)
+                    }
+                    s => s,
+                };
+                let v = matches!(stop, Stop::Violation(_));
+                ctx.record_stop(stop, Some(&h));
+                if v {
+                    return ctx;
+                }
+            }
+        }
+        ctx.own.retain(|o| *o != "C04");
+    }
     for i in 0..n_hist {
         let kt = pick_kt(&mut rng, 70);
         let mut p = Profile::base(*rng.pick(&[300usize, 1500, 3000]), n_ops);
@@ -986,6 +1048,26 @@ pub fn c07_k2_child(a: &Args) -> i32 {
         if m.get(&k[..]).unwrap().as_ref() != Some(v) {
             println!("K2-CHILD wrong result for key {}", crate::util::show_bytes(k));
             return 1;
+        }
+    }
+    // (fixed-size settings only) the same map opened again with the same small buffer and a request for a small table:
+    // the stored table size counts, and so must whatever the buffer budget is derived from
+    if a.get("size").is_some() {
+        drop(m);
+        drop(db);
+        let mut cfg2 = cfg;
+        cfg2.buckets = Buckets::Size(8);
+        let db = abyssiniandb::open_file(&dir).unwrap();
+        let mut m = db.db_map_bytes_with_params("m", cfg2.params()).unwrap();
+        for (k, v) in model.iter() {
+            if m.get(&k[..]).unwrap().as_ref() != Some(v) {
+                println!("K2-CHILD wrong result after reopen for key {}", crate::util::show_bytes(k));
+                return 1;
+            }
+        }
+        for i in 400..500u32 {
+            let k = format!("k{i}").into_bytes();
+            m.put(&k[..], b"later").unwrap();
         }
     }
     println!("K2-CHILD completed");
